@@ -250,7 +250,9 @@ fn vrun_program_inner(src: &str, only: Option<(&str, &[Vec<VV>])>, nvec: usize, 
     let text_vk = compile_src(src, Tgt::Vk, Mode::NoPipeline);
     let reparsed = |o: &CompileOutcome| -> Result<Vec<Sx>, String> {
         match o {
-            CompileOutcome::Ok(ps) if ps.len() == 1 => parse_text_module(&ps[0].text()).map(|m| TConv::new(&m).module(&m)),
+            CompileOutcome::Ok(ps) if ps.len() == 1 => parse_text_module(&ps[0].text())
+                .map(|m| TConv::new(&m).module(&m))
+                .and_then(|items| super::protos::merge(items).map_err(|e| format!("declarations: {}", e))),
             CompileOutcome::Ok(_) => Err("compile returned several outputs".into()),
             CompileOutcome::Err(e) => Err(format!("compile error {}", one_line(&e.chars().take(80).collect::<String>()))),
             CompileOutcome::Panic(p) => Err(format!("panic {}", p)),
@@ -268,6 +270,7 @@ fn vrun_program_inner(src: &str, only: Option<(&str, &[Vec<VV>])>, nvec: usize, 
             }
         }
         let mut fails: Vec<String> = Vec::new();
+        let mut refused_ok = false;
         let vectors: Vec<Vec<VV>> = match (only, &irv) {
             (Some((_, v)), _) => v.to_vec(),
             (None, Some(ev)) => match ev.param_types(*fid) {
@@ -304,6 +307,7 @@ fn vrun_program_inner(src: &str, only: Option<(&str, &[Vec<VV>])>, nvec: usize, 
                     let tc = TConv::new(m);
                     Ok(tc.find_function(&m.root_definitions, "", emitted).map(|fd| tc.func(fd)))
                 }
+                Ok(Err(rssl_hlsl::ExportError::GenerateError(e))) => Err(format!("generate-error:{:?}", e)),
                 Ok(Err(_)) => Err("generate-error".into()),
                 Err(pn) => Err(format!("panic {}", pn)),
             }
@@ -379,12 +383,48 @@ fn vrun_program_inner(src: &str, only: Option<(&str, &[Vec<VV>])>, nvec: usize, 
                 fails.push(format!("function {} missing from the exported module", emitted));
                 "missing".to_string()
             }
+            (Err(e1), Err(e2))
+                if e1 == "generate-error:FunctionNotDefined"
+                    && e2 == e1
+                    && super::protos::has_undefined_declaration(&p.ir)
+                    && matches!(text_dx, CompileOutcome::Err(_))
+                    && matches!(text_vk, CompileOutcome::Err(_)) =>
+            {
+                // a declared function (or an instantiation of a declared function template) has no implementation in the
+                // typed module: both flavours refuse, compile() reports an error, nothing is emitted, no meaning can change
+                hist.add("v:export-refused:FunctionNotDefined");
+                refused_ok = true;
+                "generate-error".to_string()
+            }
             (Err(e), _) | (_, Err(e)) => {
                 fails.push(e.clone());
                 e.split(':').next().unwrap_or("error").to_string()
             }
         };
-        if fails.is_empty() && !unsupported {
+        // `precise` stays on the declarations it was written on (parameters, locals, struct members)
+        for (flav, m) in [("dx", &ast_dx), ("vk", &ast_vk)] {
+            if let Ok(Ok(m)) = m {
+                let tc = TConv::new(m);
+                // every function of the module, not only the one under test (its callees' parameters are declared elsewhere)
+                let mut any = false;
+                for (gid, _, gname) in p.funcs.iter() {
+                    let want = super::protos::precise_of_ir(&p.ir, ir::FunctionId(*gid));
+                    let got = tc.find_function(&m.root_definitions, "", gname).map(super::protos::precise_of_ast).unwrap_or_default();
+                    any |= !want.is_empty();
+                    if got != want && fails.is_empty() {
+                        fails.push(format!("{}: precise declarations of {} differ: IR [{}] exported [{}]", flav, gname, want.join(" "), got.join(" ")));
+                    }
+                }
+                let (wm, gm) = (super::protos::precise_members_of_ir(&p.ir), super::protos::precise_members_of_ast(m));
+                if flav == "dx" && (any || !wm.is_empty()) {
+                    hist.add("v:fn:with-precise");
+                }
+                if gm != wm && fails.is_empty() {
+                    fails.push(format!("{}: precise struct members differ: IR [{}] exported [{}]", flav, wm.join(" "), gm.join(" ")));
+                }
+            }
+        }
+        if fails.is_empty() && !unsupported && !refused_ok {
             for (flav, re) in [("dx", &re_dx), ("vk", &re_vk)] {
                 match re {
                     Err(e) => fails.push(format!("{}: emitted text unusable: {}", flav, e)),
@@ -441,7 +481,13 @@ fn vrun_program_inner(src: &str, only: Option<(&str, &[Vec<VV>])>, nvec: usize, 
         if let Some(u) = &ir_unsupported {
             hist.add(&format!("v:unsupported:{}", u));
         }
-        let oracle = if !fails.is_empty() { format!("FAIL:{}", fails[0]) } else { "ok".to_string() };
+        let oracle = if !fails.is_empty() {
+            format!("FAIL:{}", fails[0])
+        } else if refused_ok {
+            "ok(export refused — FunctionNotDefined: a declared function has no definition; nothing is emitted)".to_string()
+        } else {
+            "ok".to_string()
+        };
         out.case(&req, &obs, &oracle);
     }
 }
